@@ -51,6 +51,12 @@ def sep_tree(r, max_nodes=12):
     for x in root.iter():
         if not x.kids and r.random() < 0.7:
             x.text = r.choice(["x", "hello world", "a b", " lead", "1", "y z", " "])
+    if r.random() < 0.35:
+        # comments between the child elements (present in both serialisations, so they are matched, not inserted)
+        holders = [x for x in root.iter() if x.kids]
+        for _ in range(r.randint(1, 3)):
+            h = r.choice(holders)
+            h.kids.insert(r.randint(0, len(h.kids)), PNode("c", "", [], r.choice(gen.COMMENTS), None))
     return root.number(0)
 
 
@@ -76,6 +82,8 @@ def serialize_indented(p, scheme):
         return "".join(' %s="%s"' % (k if not k.startswith("{") else "xml:id", v.replace("&", "&amp;").replace('"', "&quot;").replace("<", "&lt;")) for k, v in n.attrs)
 
     def go(n, d):
+        if n.kind == "c":
+            return "<!--%s-->" % n.text
         if not n.kids:
             t = (n.text or "").replace("&", "&amp;").replace("<", "&lt;")
             return "<%s%s>%s</%s>" % (n.tag, attrs(n), t, n.tag) if t else "<%s%s/>" % (n.tag, attrs(n))
